@@ -437,6 +437,9 @@ def _vocab(f, expected):
 def delta(exp, act, scope_names):
   """'same' | 'swap' | 'other' between an expected and an actual AST."""
   if type(exp) is not type(act):
+    # a value replaced by a literal constant / empty container is a point edit, not a restructuring
+    if isinstance(exp, (ast.Name, ast.Attribute, ast.Call)) and (isinstance(act, ast.Constant) or (isinstance(act, (ast.Tuple, ast.List)) and not act.elts) or (isinstance(act, ast.Dict) and not act.keys)):
+      return 'swap'
     return 'other'
   if isinstance(exp, ast.Name):
     if exp.id == act.id:
